@@ -2193,6 +2193,9 @@ int sxiWrUnscanToken(SExpr s)
 				break;
 			}
 		if (!*c) {
+			/* "123." plus a marker is not read back as a float */
+			if (c > buf && c[-1] == '.')
+				*c++ = '0';
 			/* if no exponent marker, add one */
 			*c++ = s->sxFloat.marker;
 			*c++ = '0';
